@@ -62,6 +62,7 @@ type actionDef struct {
 	Hang   bool // sleep 300 instead of DurMs
 	FailRc int  // how it fails: 0/3 = `exit 3`; 137 = kills its own shell with SIGKILL; 143 = with SIGTERM
 	Extra  string // extra shell text run before the sleep
+	Atomic bool   // the run counter is taken under flock (the same actor may run this action twice at once)
 	Fin    string // if set: the end of the command, after its "E" ledger line (instead of `exit $rc`)
 }
 
@@ -162,6 +163,11 @@ func (p *playDef) render(ledger string) string {
 			if a.Fin != "" {
 				fin = a.Fin
 			}
+			if a.Atomic {
+				fmt.Fprintf(&b, "  :%s exec 9>>%s.lock; flock 9; n=$(cat %s.n 2>/dev/null || echo 0); n=$((n+1)); echo $n >%s.n; flock -u 9; echo \"$ME A %s $n S $(date +%%s%%N)\" >>$LEDGER; %ssleep %s; rc=0; if %s; then rc=%d; fi; echo \"$ME A %s $n E $(date +%%s%%N) $rc\" >>$LEDGER; %s\n",
+					a.Name, a.Name, a.Name, a.Name, a.Name, a.Extra, sl, cond, frc, a.Name, fin)
+				continue
+			}
 			fmt.Fprintf(&b, "  :%s n=$(cat %s.n 2>/dev/null || echo 0); n=$((n+1)); echo $n >%s.n; echo \"$ME A %s $n S $(date +%%s%%N)\" >>$LEDGER; %ssleep %s; rc=0; if %s; then rc=%d; fi; echo \"$ME A %s $n E $(date +%%s%%N) $rc\" >>$LEDGER; %s\n",
 				a.Name, a.Name, a.Name, a.Name, a.Extra, sl, cond, frc, a.Name, fin)
 		}
@@ -194,7 +200,7 @@ func (p *playDef) render(ledger string) string {
 		}
 		spot := p.Spot[a]
 		if spot == "" {
-			spot = "sleep 300"
+			spot = "echo; echo; sleep 300" // blank lines, then it keeps running
 		}
 		fmt.Fprintf(&b, "  %s plays %s with ME=%s LEDGER=%s CLBAD=%s SPOT='%s'\n", a, p.RoleOf[a], a, ledger, bad, spot)
 	}
@@ -1048,6 +1054,69 @@ func genFineTempo(name string, variant int) *playDef {
 	return p
 }
 
+// genOverrun: a scene group that lasts longer than the tempo, followed by at least two more
+// columns whose actions are short: each of them must still wait for its own slot
+// (column x tempo from the ACT start), however late the overrunning group made its successor.
+func genOverrun(rng *rand.Rand, name string, variant int) *playDef {
+	p := &playDef{Name: name, Spot: map[string]string{}, RoleOf: map[string]string{}}
+	p.Roles = []string{"r1"}
+	p.Actors = []string{"x1", "x2"}
+	p.RoleOf["x1"], p.RoleOf["x2"] = "r1", "r1"
+	p.TempoMs = pick(rng, []int{400, 500})
+	// 1.3 .. 1.5 tempos: the column after next would start >= 0.5 tempo (200 ms) early
+	long := p.TempoMs * (13 + rng.Intn(3)) / 10
+	p.Actions = []actionDef{{Name: "a0s0", DurMs: long}, {Name: "b0s0", DurMs: 5}, {Name: "c0s0", DurMs: 5}, {Name: "d0s0", DurMs: 5}}
+	p.Scenes = []sceneDef{
+		{"a", []entailDef{{"x1", []stepDef{{"a0s0", false}}}}},
+		{"b", []entailDef{{"x2", []stepDef{{"b0s0", false}}}}},
+		{"c", []entailDef{{"x1", []stepDef{{"c0s0", false}}}}},
+		{"d", []entailDef{{"x2", []stepDef{{"d0s0", false}}}}},
+	}
+	p.Story = []string{[]string{"abc", "abcd", "ba.cd", "b abc", "abc abd"}[variant%5]}
+	return p
+}
+
+// genDupInGroup: `+` groups naming the same scene twice (`a+ab a+a`, as two combined
+// storyline clauses produce): its lines run once per mention.  Single-step lines and an
+// atomic run counter, since the same actor runs the same action twice at the same time.
+func genDupInGroup(rng *rand.Rand, name string, variant int) *playDef {
+	p := &playDef{Name: name, Spot: map[string]string{}, RoleOf: map[string]string{}}
+	p.Roles = []string{"r1"}
+	p.Actors = []string{"x1", "x2"}
+	p.RoleOf["x1"], p.RoleOf["x2"] = "r1", "r1"
+	p.TempoMs = pick(rng, []int{40, 80})
+	p.Actions = []actionDef{{Name: "a0s0", DurMs: 10, Atomic: true}, {Name: "b0s0", DurMs: 10, Atomic: true}}
+	p.Scenes = []sceneDef{
+		{"a", []entailDef{{"x1", []stepDef{{"a0s0", false}}}}},
+		{"b", []entailDef{{"every r1", []stepDef{{"b0s0", false}}}}},
+	}
+	p.Story = []string{[]string{"a+ab a+a", "a+a", "b+a+b a", "a+a+a.b+b"}[variant%4]}
+	return p
+}
+
+// genFailShapes: one line of actions failing in every way a shell command can end
+// non-zero: `exit 3`, an `&&` list whose first member fails, a negated command (neither
+// trips `set -e`), SIGKILL / SIGTERM to the own shell.  C04: all tolerated (the recorded
+// status must be non-zero for each); C05: the hardAt-th is NOT tolerated and must stop the play.
+func genFailShapes(name string, hardAt int) *playDef {
+	p := &playDef{Name: name, Spot: map[string]string{}, RoleOf: map[string]string{}}
+	p.Roles = []string{"r1"}
+	p.Actors = []string{"x1"}
+	p.RoleOf["x1"] = "r1"
+	p.TempoMs = 50
+	shapes := []int{101, 102, 3, 137, 143}
+	var steps []stepDef
+	for k, rc := range shapes {
+		name := fmt.Sprintf("a0s%d", k)
+		p.Actions = append(p.Actions, actionDef{Name: name, DurMs: 5, FailAt: -1, FailRc: rc})
+		steps = append(steps, stepDef{name, k != hardAt})
+	}
+	p.Actions = append(p.Actions, actionDef{Name: "z0s0", DurMs: 5})
+	p.Scenes = []sceneDef{{"a", []entailDef{{"x1", steps}}}, {"z", []entailDef{{"x1", []stepDef{{"z0s0", false}}}}}}
+	p.Story = []string{"az"}
+	return p
+}
+
 // genSilentAct: an act made only of pauses that is neither the first act nor after the
 // repetition point (`a .. b`, repeat from b, repeat N times): b is played N times.
 func genSilentAct(rng *rand.Rand, name string, variant int) *playDef {
@@ -1083,7 +1152,7 @@ func genManyActors(name string) *playDef {
 		{"a", []entailDef{{"every r1", []stepDef{{"a0s0", false}}}}},
 		{"b", []entailDef{{"every r1", []stepDef{{"b0s0", false}}}}},
 	}
-	p.Story = []string{"a..b"}
+	p.Story = []string{"a...b...a"} // 4.5 s: several flush ticks between the bursts of rows
 	return p
 }
 
@@ -1139,7 +1208,7 @@ func genFanoutFail(rng *rand.Rand, name string, variant int) *playDef {
 		if i == failing {
 			ad.DurMs = 400
 			ad.FailAt = -1
-			ad.FailRc = pick(rng, []int{3, 3, 137})
+			ad.FailRc = []int{137, 3, 143, 101}[variant%4]
 		}
 		p.Actions = append(p.Actions, ad)
 		p.Scenes = append(p.Scenes, sceneDef{ch, []entailDef{{p.Actors[i], []stepDef{{name, false}}}}})
@@ -1175,7 +1244,7 @@ func baseC07(name string) *playDef {
 	p.Story = []string{"abc .........."}
 	p.SpotKind = 1
 	p.Spot["x1"] = "touch sp.log; tail -s 0.05 -F sp.log"
-	p.Spot["x2"] = "sleep 300"
+	p.Spot["x2"] = "echo; echo hello; echo; sleep 300" // prints blank lines, then keeps running
 	p.Audience = []string{"bob watches x1 v", "bob expects always: [x1 v] >= 0"}
 	return p
 }
@@ -1729,20 +1798,32 @@ func main() {
 			var p *playDef
 			var cfg *cmd.VerifCfg
 			switch {
-			case *prop == "c05" && i%8 == 7:
-				p = genFanoutFail(rng, fmt.Sprintf("c05-%d-fanout", i), i/8)
-			case i%16 == 14:
-				p = genSilentAct(rng, fmt.Sprintf("%s-%d-silent-act", *prop, i), i/16)
-			case i%8 == 3:
-				p = genHeadShare(rng, fmt.Sprintf("%s-%d-headshare", *prop, i), i/8)
-			case *prop == "c04" && (i == n-4 || i == n-5 || i%100 == 96 || i%100 == 95):
-				p = genFineTempo(fmt.Sprintf("c04-%d-fine-tempo", i), i)
-			case *prop == "c04" && (i == n-3 || i%100 == 97):
-				p = genManyActors(fmt.Sprintf("c04-%d-many-actors", i))
+			// the plays every run has, at the end of the list
 			case *prop == "c04" && (i == n-1 || i%100 == 99):
 				p = genRendezvous(fmt.Sprintf("c04-%d-rendezvous", i))
 			case *prop == "c04" && (i == n-2 || i%100 == 98):
 				p = genJustBefore(fmt.Sprintf("c04-%d-just-before-the-slot", i))
+			case *prop == "c04" && (i == n-3 || i%100 == 97):
+				p = genManyActors(fmt.Sprintf("c04-%d-many-actors", i))
+			case *prop == "c04" && (i == n-4 || i == n-5 || i%100 == 96 || i%100 == 95):
+				p = genFineTempo(fmt.Sprintf("c04-%d-fine-tempo", i), i)
+			// ... and spread over it
+			case *prop == "c05" && i%8 == 7:
+				p = genFanoutFail(rng, fmt.Sprintf("c05-%d-fanout", i), i/8)
+			case i%16 == 6:
+				p = genOverrun(rng, fmt.Sprintf("%s-%d-overrun", *prop, i), i/16)
+			case *prop == "c05" && i%16 == 9:
+				p = genDupInGroup(rng, fmt.Sprintf("c05-%d-dup-in-group", i), i/16)
+			case i%16 == 12:
+				hard := -1
+				if *prop == "c05" {
+					hard = (i / 16) % 5
+				}
+				p = genFailShapes(fmt.Sprintf("%s-%d-fail-shapes", *prop, i), hard)
+			case i%16 == 14:
+				p = genSilentAct(rng, fmt.Sprintf("%s-%d-silent-act", *prop, i), i/16)
+			case i%8 == 3:
+				p = genHeadShare(rng, fmt.Sprintf("%s-%d-headshare", *prop, i), i/8)
 			}
 			if p != nil {
 				var errs string
@@ -1868,6 +1949,12 @@ func main() {
 				if strings.Contains(a.Extra, "sleep 100 &") {
 					dist["actions-leaving-a-background-process"]++
 				}
+			}
+			if strings.HasSuffix(c.Name, "overrun") {
+				dist["overrunning-group-followed-by-two-or-more-columns"]++
+			}
+			if strings.HasSuffix(c.Name, "dup-in-group") {
+				dist["groups-naming-a-scene-twice"]++
 			}
 			if strings.HasSuffix(c.Name, "silent-act") {
 				dist["pause-only-act-before-the-repetition-point"]++
